@@ -7,6 +7,7 @@ package main
 
 import (
 	"encoding/json"
+	"fmt"
 	"runtime"
 	"strconv"
 	"strings"
@@ -579,7 +580,7 @@ func genSeq(r *hx.Rng, tier string) []hx.Zs {
 	}
 	for len(h) < len(pl.Prefix)+n {
 		p := pl.Peers[r.Intn(len(pl.Peers))]
-		switch r.Pick(38, 18, 4, 6, 6, 8, 4, 4, 3, 2) {
+		switch r.Pick(38, 18, 4, 6, 6, 8, 4, 4, 3, 2, 4) {
 		case 0: // bind
 			var cli stack.FAddr
 			var cf *stack.RFeat
@@ -741,6 +742,46 @@ func genSeq(r *hx.Rng, tier string) []hx.Zs {
 				distSeq["delete-one-of-several"]++
 			}
 			listAll()
+		case 10: // a teardown of p overlapped by a bind / unbind call of another peer q
+			var q stack.Peer
+			found := false
+			for _, c := range pl.Peers {
+				if c.Ski != p.Ski && connected[c.Ski] {
+					q, found = c, true
+				}
+			}
+			if !found || !connected[p.Ski] {
+				break
+			}
+			// a server feature p never asked a binding for (the overlapped call must not depend on p's entries)
+			var lf *stack.LFeat
+			for k := range pl.Local {
+				c := pl.Local[k]
+				used := false
+				for _, x := range calls {
+					if x.p == p.Ski && fmt.Sprint(x.srv.Ent, x.srv.Feat) == fmt.Sprint(c.Ent, c.Id+1) {
+						used = true
+					}
+				}
+				if !used && c.Role == 1 {
+					lf = &c
+					break
+				}
+			}
+			if lf == nil {
+				break
+			}
+			qc := call{q.Ski, q.Addr(q.Feats[r.Intn(len(q.Feats))], true), lf.Addr(true)}
+			var c hx.Zs
+			if r.Chance(2, 3) {
+				calls = append(calls, qc)
+				c = stack.OpBindCall(q.Ski, next(q.Ski), r.Bool(), qc.cli, qc.srv, lf.Type+1)
+			} else {
+				c = stack.OpBindDelete(q.Ski, next(q.Ski), r.Bool(), qc.cli, qc.srv)
+			}
+			h = append(h, stack.OpDuring(stack.OpDisconnect(p.Ski), c), stack.OpListBinds(q.Ski), stack.OpListBinds(p.Ski))
+			connected[p.Ski] = false
+			distSeq["teardown-overlapped-by-call"]++
 		default:
 			listAll()
 		}
